@@ -710,6 +710,7 @@ func (r *run) callBuiltin(caller *frame, callpos token.Pos, fn *ssa.Builtin, arg
 			if x == nil {
 				return mkBV(64, 0)
 			}
+			x.resolveAll(r)
 			return mkBV(64, uint64(x.len()))
 		case *opaque:
 			return mkBV(64, 0)
